@@ -715,6 +715,62 @@ func streamC15(c *Ctx) {
 					}
 				}
 			}
+			// ONE cursor sought again and again (the empty key first, then every other target, the empty key in between): each
+			// seek positions the cursor afresh, whatever the cursor was sought to before
+			for _, fwd := range []bool{true, false} {
+				cur, cerr := tx.Cursor(fwd)
+				if cerr != nil {
+					break
+				}
+				seq := []string{""}
+				for ti, t := range targets {
+					seq = append(seq, t)
+					if ti%3 == 2 {
+						seq = append(seq, "")
+					}
+				}
+				for _, t := range seq {
+					c.Evals++
+					cur.Seek([]byte(t))
+					got := []string{}
+					for n := 0; cur.Valid() && n < 3; n++ {
+						it, ierr := cur.Item()
+						if ierr != nil {
+							break
+						}
+						got = append(got, hx(string(it.Key)))
+						cur.Next()
+					}
+					want := []string{}
+					if fwd {
+						for _, k := range sorted {
+							if bytes.Compare([]byte(k), []byte(t)) >= 0 && len(want) < 3 {
+								want = append(want, hx(k))
+							}
+						}
+					} else {
+						for i := len(sorted) - 1; i >= 0; i-- {
+							if bytes.Compare([]byte(sorted[i]), []byte(t)) <= 0 && len(want) < 3 {
+								want = append(want, hx(sorted[i]))
+							}
+						}
+					}
+					if strings.Join(got, ",") != strings.Join(want, ",") {
+						hexKeys := []interface{}{}
+						for _, k := range sorted {
+							hexKeys = append(hexKeys, hx(k))
+						}
+						c.Violation(&Replay{Backend: be, Stream: "cursor", Case: []interface{}{J{"k": "cursor-reseek", "keys": hexKeys, "target": hx(t), "fwd": fwd, "backend": be}}, Expected: []string{strings.Join(want, ",")}, Actual: []string{strings.Join(got, ",")},
+							Note: "a cursor that had been sought before does not position itself afresh on the next Seek"})
+						cur.Close()
+						tx.Rollback()
+						st.Close()
+						return
+					}
+				}
+				cur.Close()
+				c.Count("cursor-reseek:" + be)
+			}
 			tx.Rollback()
 			st.Close()
 			os.RemoveAll(dir)
